@@ -17,6 +17,8 @@ Shapes (name n):  G   add_class_arguments(F, n)                      units: n
                       (event ["cfg", n, [[i, value], ...]] at the end of the log)
 A case may carry "uses": [k, ...]: after the k-th link_arguments call (1-based count of calls made) the parser is USED
 (parse_object + instantiate_classes, result discarded) before further links are added - link histories interleaved with use.
+With "cont": true the ValueError of a cycle-closing link is caught and the remaining links are still added: the history goes
+on after a rejection; the numbers of the rejected calls are reported as "rejected".
 Every class has int parameters l0..l7 (default -1) that links may target, sets self.at to a fresh marker object and the
 attributes an, az, ae, af to None, 0, "" and False (falsy attribute values are values like any other).
 """
@@ -142,6 +144,7 @@ def run_case(mod, case):
         p, cfg = build_parser(mod, case["decls"])
     except BaseException as e:  # noqa
         return {"outcome": "build:" + type(e).__name__, "log": []}
+    rejected = []
     for k, l in enumerate(case["links"]):
         src = l["src"][0] if len(l["src"]) == 1 else tuple(l["src"])
         fn = mod.make_fn(l["id"]) if l["fn"] else None
@@ -149,7 +152,9 @@ def run_case(mod, case):
             p.link_arguments(src, l["tgt"], compute_fn=fn, apply_on="instantiate")
         except ValueError as e:
             kind = "cycle" if "Graph has cycles" in str(e) else "other"
-            return {"outcome": "link_error", "at": k, "why": kind, "log": list(mod.LOG), "msg": str(e)[:160]}
+            if not (kind == "cycle" and case.get("cont")):
+                return {"outcome": "link_error", "at": k, "why": kind, "log": list(mod.LOG), "msg": str(e)[:160]}
+            rejected.append(k)      # the caller catches the rejection and goes on (and may use the parser right away)
         except BaseException as e:  # noqa
             return {"outcome": "link_exc:" + type(e).__name__, "at": k, "log": list(mod.LOG), "msg": str(e)[:160]}
         if k + 1 in case.get("uses", ()):
@@ -161,12 +166,13 @@ def run_case(mod, case):
     try:
         ns = p.parse_object(cfg)
     except BaseException as e:  # noqa
-        return {"outcome": "parse:" + type(e).__name__, "log": list(mod.LOG), "msg": str(e)[:200]}
+        return {"outcome": "parse:" + type(e).__name__, "log": list(mod.LOG), "msg": str(e)[:200], "rejected": rejected}
     pre = len(mod.LOG)
     try:
         init = p.instantiate_classes(ns)
     except BaseException as e:  # noqa
-        return {"outcome": "exc:" + type(e).__name__, "log": list(mod.LOG), "parse_events": pre, "msg": str(e)[:200]}
+        return {"outcome": "exc:" + type(e).__name__, "log": list(mod.LOG), "parse_events": pre, "msg": str(e)[:200],
+                "rejected": rejected}
     log = list(mod.LOG)
     for n, shape in case["decls"]:
         if shape == "GI":
@@ -175,7 +181,7 @@ def run_case(mod, case):
                 log.append(["cfg", n, [[i, mod.canon(g["l%d" % i])] for i in range(NPAR)]])
             except BaseException as e:  # noqa
                 log.append(["cfg", n, [[0, ["other", type(e).__name__]]]])
-    return {"outcome": "ok", "log": log, "parse_events": pre}
+    return {"outcome": "ok", "log": log, "parse_events": pre, "rejected": rejected}
 
 
 def main():
